@@ -1230,7 +1230,6 @@ static int parse_single_cert(psPool_t *pool, const unsigned char **pp,
     if (!psVerifyNeedPreHash(cert->certAlgorithm))
     {
         /* Skip pre-hashing and instead buffer the TBS. */
-        (void)hashCtx; /* Not used on this code path. */
         cert->tbsCertStart = psMalloc(pool, certLen);
         if (cert->tbsCertStart == NULL)
         {
@@ -1238,6 +1237,21 @@ static int parse_single_cert(psPool_t *pool, const unsigned char **pp,
         }
         Memcpy(cert->tbsCertStart, tbsCertStart, certLen);
         cert->tbsCertLen = certLen;
+#  ifdef USE_SHA512
+        /* sigHash is also what tells two certificates apart (the "trusted
+           copy is the very same certificate" test of
+           psX509AuthenticateCert, the path length rule of
+           matrixValidateCerts). Left all-zero here, it made every two
+           Ed25519-signed certificates with equal signature octets "the
+           same": fill it with a digest of the TBSCertificate. */
+        if (cert->sigHashLen == SHA512_HASH_SIZE)
+        {
+            psSha512PreInit(&hashCtx.u.sha512);
+            psSha512Init(&hashCtx.u.sha512);
+            psSha512Update(&hashCtx.u.sha512, tbsCertStart, certLen);
+            psSha512Final(&hashCtx.u.sha512, cert->sigHash);
+        }
+#  endif
         goto preprocessing_complete;
     }
 # endif
@@ -2721,6 +2735,16 @@ void psX509FreeCert(psX509Cert_t *cert)
             psFree(curr->uniqueSubjectId, pool);
         }
 
+# ifdef USE_ED25519
+        /* The TBS is buffered for certificates SIGNED with Ed25519,
+           whatever their own key is (the frees below go by the key type). */
+        if (curr->certAlgorithm == OID_ED25519_KEY_ALG &&
+                curr->tbsCertStart != NULL)
+        {
+            psFree(curr->tbsCertStart, pool);
+            curr->tbsCertStart = NULL;
+        }
+# endif
 # ifdef USE_ROT_ECC
         if (curr->pubKeyAlgorithm == OID_ECDSA_KEY_ALG)
         {
@@ -2758,7 +2782,6 @@ void psX509FreeCert(psX509Cert_t *cert)
 
 #  ifdef USE_ED25519
             case OID_ED25519_KEY_ALG:
-                psFree(curr->tbsCertStart, pool);
                 break;
 #  endif
 
@@ -2768,6 +2791,7 @@ void psX509FreeCert(psX509Cert_t *cert)
             }
             curr->publicKey.type = PS_NOKEY;
         }
+
 
         x509FreeExtensions(&curr->extensions);
 # endif /* USE_CERT_PARSE */
